@@ -276,8 +276,11 @@ class AdapterDouble:
         return SimpleNamespace(text=text, tokens=self.ntok, truncated=False)
 
 
+_WD = {"dir": None}      # set by check() to the run's own scratch directory (forked workers inherit it)
+
+
 def _workdir() -> str:
-    d = os.path.join("/verif/.work/C13", "turns")
+    d = os.path.join(_WD["dir"] or "/verif/.work/C13_replay", "turns")
     os.makedirs(d, exist_ok=True)
     return d
 
@@ -650,6 +653,7 @@ def _record(run, part, case, res, replay_extra=None):
 
 def check(run) -> None:
     q = run.quick
+    _WD["dir"] = run.workdir
     run.rule = ("every class vector of the five exhaustively enumerated Planner.tla tables concretised (1-4 concrete inputs each) and "
                 "run through the real deliberate / rag_once / run_turn / speak / llm_speak / parse_and_validate; plus seeded random "
                 "bundles and garbage strings; distinct = distinct (table, class vector) / random index")
